@@ -688,6 +688,39 @@ func c12Readers(args []string) int {
 			}(g)
 		}
 		wg.Wait()
+		// ... and acquisitions that are all fresh: every goroutine keeps what it gets until all are done
+		for round := 0; round < 3*nmut; round++ {
+			idr.VerifResetNodePool()
+			held := make([][]*idr.Node, 8)
+			for g := 0; g < 8; g++ {
+				wg.Add(1)
+				go func(g int) {
+					defer wg.Done()
+					for k := 0; k < 3000; k++ {
+						held[g] = append(held[g], idr.CreateNode(idr.ElementNode, fmt.Sprintf("g%d-%d", g, k)))
+					}
+				}(g)
+			}
+			wg.Wait()
+			seen := map[*idr.Node]string{}
+			for g := range held {
+				for k, n := range held[g] {
+					want := fmt.Sprintf("g%d-%d", g, k)
+					if prev, dup := seen[n]; dup && len(pt.errs) < 40 {
+						pt.errs = append(pt.errs, fmt.Sprintf("the same node %p was handed to two owners while both held it (%s and %s)", n, prev, want))
+					}
+					seen[n] = want
+					if n.Data != want && len(pt.errs) < 40 {
+						pt.errs = append(pt.errs, fmt.Sprintf("node %p changed under its owner: acquired as %s, now %q", n, want, n.Data))
+					}
+				}
+			}
+			for g := range held {
+				for _, n := range held[g] {
+					idr.RemoveAndReleaseTree(n)
+				}
+			}
+		}
 		runtime.GOMAXPROCS(old)
 		sum.eval(true, M{"racing": 8})
 	}
